@@ -32,6 +32,12 @@ type simcfg struct {
 	live        int
 	witness     bool
 	thorough    bool
+	split       bool // directed adversarial schedules (split.go)
+	stall       int  // quorum loss for about this many events, then recovery (stall.go)
+	latesigs    bool // late block signatures for old (evicted) blocks (stall.go)
+	inmem0      int  // node 0 runs on an InmemStore with this small cache size and is not model-compared
+	longSil     int  // one validator goes silent for good, the others create about this many more events (stall.go)
+	appFaults   bool // -split: the application of a node fails one commit (hx.App.FailNext)
 }
 
 type hist struct {
@@ -60,6 +66,12 @@ type hist struct {
 	tmpDirs          []string
 	badger           *hg.BadgerStore
 	ffAnchorRR       []int
+	dist             *distStats   // distribution report (stats.go)
+	forks            map[int]bool // eids of refused fork attempts (never part of the DAG)
+	pst              *persistObs  // C02/C04 oracle state of the persistent small-cache node (stall.go)
+	uncompared0      bool         // node 0 runs on a small cache (Badger or in-memory) and is not model-compared
+	passArm          map[int]bool // -split -passfaults: nodes that may lose a consensus-pass write in the current episode
+	appFailed        map[int]bool // -appfaults: nodes whose application failed a commit (their application state has diverged)
 }
 
 func (h *hist) pull(a, b *hx.Node, limit int, lose bool) {
@@ -108,6 +120,16 @@ func (h *hist) after(a *hx.Node, sigPoolRan bool) {
 		fmt.Fprintf(h.w.Out, "F %d\n", a.ID)
 		h.actions["pass-fault-injected"]++
 	}
+	if len(a.App.FailedIdx) > 0 && !h.appFailed[a.ID] {
+		// the application refused one block: the model has no such failure point and the node's state hashes differ
+		// from everybody else's from here on (C01 does not apply to it); C02 / C04 / C05 still do
+		h.appFailed[a.ID] = true
+		h.actions["app-commit-failed"]++
+		if !a.Faulty {
+			a.Faulty = true
+			fmt.Fprintf(h.w.Out, "F %d\n", a.ID)
+		}
+	}
 	if fs := h.faults[a.ID]; fs != nil && fs.Injected > 0 && !a.Faulty {
 		a.Faulty = true
 		fmt.Fprintf(h.w.Out, "F %d\n", a.ID)
@@ -115,12 +137,16 @@ func (h *hist) after(a *hx.Node, sigPoolRan bool) {
 	}
 	a.AfterAction(sigPoolRan)
 	h.oracles(a, before)
-	if !(h.badger != nil && a.ID == 0) {
+	if !(h.uncompared0 && a.ID == 0) {
 		// (on the small-cache persistent node a consensus pass can fail below the supported cache window,
 		// after which the core is wedged; that configuration is outside C05's quantifier)
 		h.conservation(a)
 	}
 	h.c09Oracle(a)
+	h.observe(a)
+	if h.badger != nil && a.ID == 0 {
+		h.persistOracle(a)
+	}
 	if h.cfg.dyn {
 		h.peerSetOracle(a)
 		h.resetPeerSetOracle(a)
@@ -245,7 +271,7 @@ func (h *hist) oracles(a *hx.Node, before int) {
 		idx := a.Base + k
 		for _, o := range h.nodes {
 			ob, obody, ok := o.BlockAt(idx)
-			if o == a || !ok {
+			if o == a || !ok || h.appFailed[a.ID] || h.appFailed[o.ID] {
 				continue
 			}
 			prop := "C01"
@@ -309,7 +335,7 @@ func runHistory(out *bufio.Writer, seed int64, hid int, cfg simcfg) (stats map[s
 	rng := rand.New(rand.NewSource(seed))
 	w := hx.NewWorld(out)
 	h := &hist{w: w, rng: rng, cfg: cfg, actions: map[string]int{}, submitted: map[int][]int{}, sigsPrev: map[string]map[string]bool{},
-		faults: map[int]*hx.FaultStore{}, pendingJoins: map[int]bool{}, joined: map[int]bool{}, leaving: map[int]bool{}}
+		faults: map[int]*hx.FaultStore{}, pendingJoins: map[int]bool{}, joined: map[int]bool{}, leaving: map[int]bool{}, forks: map[int]bool{}, appFailed: map[int]bool{}}
 	fmt.Fprintf(out, "H %d seed=%d n=%d steps=%d\n", hid, seed, cfg.n, cfg.steps)
 	genesis := []int{}
 	for i := 0; i < cfg.n; i++ {
@@ -332,6 +358,9 @@ func runHistory(out *bufio.Writer, seed int64, hid int, cfg simcfg) (stats map[s
 				h.badger = bs
 			}
 		}
+		if cfg.inmem0 > 0 && i == 0 && cfg.badgerCache == 0 {
+			store = hg.NewInmemStore(cfg.inmem0)
+		}
 		if cfg.faults {
 			fs := &hx.FaultStore{Store: store}
 			h.faults[i] = fs
@@ -340,8 +369,18 @@ func runHistory(out *bufio.Writer, seed int64, hid int, cfg simcfg) (stats map[s
 		nd := w.NewNode(i, i, genesis, genesis, store)
 		h.nodes = append(h.nodes, nd)
 	}
-	if h.badger != nil {
+	if h.badger == nil && cfg.inmem0 > 0 {
+		// small in-memory cache: every read of the harness would refresh the LRU, so this node is only
+		// driven and observed through its deliveries (not compared with the model, no store dumps)
+		h.uncompared0 = true
 		h.nodes[0].Faulty = true
+		h.nodes[0].NoDump = true
+		fmt.Fprintf(out, "F 0\n")
+	}
+	if h.badger != nil {
+		h.uncompared0 = true
+		h.nodes[0].Faulty = true
+		h.nodes[0].NoDump = cfg.stall > 0 || cfg.latesigs // every dump would re-read all evicted events from the database
 		fmt.Fprintf(out, "F 0\n")
 	}
 	defer func() {
@@ -391,7 +430,16 @@ func runHistory(out *bufio.Writer, seed int64, hid int, cfg simcfg) (stats map[s
 	if maxSilent > 0 && rng.Intn(2) == 0 {
 		silentAt = rng.Intn(cfg.steps)
 	}
-	for step := 0; step < cfg.steps; step++ {
+	if cfg.split {
+		h.splitSchedule()
+	}
+	if cfg.stall > 0 || cfg.latesigs {
+		h.stallSchedule()
+	}
+	if cfg.longSil > 0 {
+		h.longSilentSchedule()
+	}
+	for step := 0; step < cfg.steps && !cfg.split && cfg.stall == 0 && !cfg.latesigs && cfg.longSil == 0; step++ {
 		if step == silentAt {
 			k := 1 + rng.Intn(maxSilent)
 			for _, i := range rng.Perm(cfg.n)[:k] {
@@ -497,6 +545,7 @@ func runHistory(out *bufio.Writer, seed int64, hid int, cfg simcfg) (stats map[s
 	for k, v := range h.actions {
 		st["a:"+k] = v
 	}
+	h.distInto(st)
 	keys := []string{}
 	for k := range st {
 		keys = append(keys, k)
@@ -527,6 +576,13 @@ func main() {
 	ff := flag.Bool("ff", false, "C13: half of the joiners start by fast-forwarding from a peer's anchor instead of replaying history")
 	live := flag.Int("live", 0, "C06: after the adversarial prefix run fair all-pairs cycles until quiescence, at most this many")
 	witness := flag.Bool("c03witness", false, "search a minimal batching witness")
+	split := flag.Bool("split", false, "directed adversarial schedules: split votes up to the coin round, late witnesses, monologues, delayed delivery, refused forks")
+	stall := flag.Int("stall", 0, "stall-then-resume schedule: after a warm-up fewer than a super-majority of validators gossip for about this many events, then everybody again")
+	latesigs := flag.Bool("latesigs", false, "with -badgercache: block signatures for old blocks (evicted from the block cache) are delivered late")
+	minn := flag.Int("minn", 0, "minimum number of validators (0: the default mix)")
+	appFaults := flag.Bool("appfaults", false, "with -split: the application of one node per episode fails one commit callback")
+	inmem0 := flag.Int("inmemcache0", 0, "node 0 uses an InmemStore with this (small) cache size and is not compared with the model")
+	longSil := flag.Int("longsilent", 0, "a minority goes silent for good after a warm-up, the others create about this many more events (use with -live)")
 	flag.Parse()
 	out := bufio.NewWriterSize(os.Stdout, 1<<20)
 	defer out.Flush()
@@ -536,7 +592,10 @@ func main() {
 		if i%7 != 0 && n < 3 && *maxn >= 3 {
 			n = 3 + master.Intn(*maxn-2)
 		}
-		cfg := simcfg{n: n, steps: *steps/2 + master.Intn(*steps), dyn: *dyn, fairTail: *tail, cache: *cache, faults: *faults, passFaults: *passFaults, advsigs: *advsigs, dagrun: *dagrun, thorough: *thorough, badgerCache: *badgerCache, ff: *ff, live: *live, witness: *witness}
+		if *minn > 0 && n < *minn {
+			n = *minn + master.Intn(*maxn-*minn+1)
+		}
+		cfg := simcfg{appFaults: *appFaults, inmem0: *inmem0, longSil: *longSil, split: *split, stall: *stall, latesigs: *latesigs, n: n, steps: *steps/2 + master.Intn(*steps), dyn: *dyn, fairTail: *tail, cache: *cache, faults: *faults, passFaults: *passFaults, advsigs: *advsigs, dagrun: *dagrun, thorough: *thorough, badgerCache: *badgerCache, ff: *ff, live: *live, witness: *witness}
 		runHistory(out, master.Int63(), i, cfg)
 	}
 }
